@@ -427,3 +427,52 @@ def frag_bbox(fr):
 
 def strip_line(fr):
     return fr[:-1]
+
+
+def arc_geometry(fr):
+    """SVG semantics of `M start A r,r 0,0,sweep end` (minor arc): centre, start/end angles and exact
+    bounding box (floats).  Returns None if the radius is too small for the chord (SVG then scales it)."""
+    import math
+    x1, y1 = float(fr[1][1]), float(fr[1][2])
+    x2, y2 = float(fr[2][1]), float(fr[2][2])
+    r = float(fr[3])
+    sweep = bool(fr[4])
+    hx, hy = (x1 - x2) / 2, (y1 - y2) / 2
+    h2 = hx * hx + hy * hy
+    if h2 == 0:
+        return None
+    if r * r < h2:
+        r = math.sqrt(h2)
+    coef = math.sqrt(max(r * r - h2, 0.0) / h2)
+    if not sweep:
+        coef = -coef
+    cx = coef * hy + (x1 + x2) / 2
+    cy = -coef * hx + (y1 + y2) / 2
+    t1 = math.atan2(y1 - cy, x1 - cx)
+    t2 = math.atan2(y2 - cy, x2 - cx)
+    d = t2 - t1
+    if sweep and d < 0:
+        d += 2 * math.pi
+    if not sweep and d > 0:
+        d -= 2 * math.pi
+    xs, ys = [x1, x2], [y1, y2]
+    for k in range(-4, 5):
+        a = k * math.pi / 2
+        # is a within [t1, t1+d] (direction of d)?
+        rel = a - t1
+        if d >= 0:
+            while rel < 0:
+                rel += 2 * math.pi
+            while rel >= 2 * math.pi:
+                rel -= 2 * math.pi
+            inside = rel <= d + 1e-12
+        else:
+            while rel > 0:
+                rel -= 2 * math.pi
+            while rel <= -2 * math.pi:
+                rel += 2 * math.pi
+            inside = rel >= d - 1e-12
+        if inside:
+            xs.append(cx + r * math.cos(a))
+            ys.append(cy + r * math.sin(a))
+    return {"center": (cx, cy), "radius": r, "t1": t1, "delta": d, "box": (min(xs), min(ys), max(xs), max(ys))}
